@@ -4,6 +4,7 @@
 import UVerifProofs.Lemmas.CfloatVal
 import UVerifProofs.Lemmas.CfloatMul
 import UVerifProofs.Lemmas.CfloatEq
+import UVerifProofs.Lemmas.CfloatLt
 open UVerif UVerif.Cfloat
 
 /-- IEEE equality on denoted values: NaN unequal to everything, −0 = +0 -/
@@ -308,4 +309,25 @@ theorem C06_cfloat_lt_nosub_partial (c : Cfg) (hv : c.valid = true) (hs : c.sub 
 /-- non-vacuity: −1.25 < −1.0 and 3.5 > 2.0 in cfloat<8,3> without subnormals -/
 example : let c : Cfg := { nbits := 8, es := 3 }
     normalOperand c 0xb4 = true ∧ normalOperand c 0xb0 = true ∧ lt c 0xb4 0xb0 = true ∧ lt c 0x4c 0x40 = false := by
+  decide +kernel
+
+
+/-- **`<` with subnormals (the subtraction-based path) is the order of the denoted values** for all finite operands
+    with non-zero exponent fields whose difference is zero or lies in the normal range below the top binades
+    (`addInRangeAll cfg a (−b)`, the side condition of the subtraction theorem), fbits ≤ 58, es ≥ 2: the rounded
+    difference is a zero iff the operands are equal, otherwise it has the sign of the exact difference (a difference
+    of representable values is a non-zero multiple of the smallest subnormal, so it never rounds to zero). -/
+theorem C06_cfloat_lt_sub_partial (c : Cfg) (hv : c.valid = true) (hsub : c.sub = true) (hes2 : 2 ≤ c.es) (a b : Nat)
+    (hnarrow : c.fbits + 6 < 65)
+    (hna : normalOperand c a = true) (hnb : normalOperand c b = true)
+    (hr : addInRangeAll c a (negate c b) = true) :
+    lt c a b = C06_cfloat_specLt (cfVal c a) (cfVal c b) := by
+  have := lt_sub_normal c hv hsub hes2 a b hnarrow hna hnb hr
+  rw [this]; rfl
+
+/-- non-vacuity: −1.25 < 1.0, 1.3125 < 1.75 and ¬(1.75 < 1.75) in cfloat<8,3,sub> -/
+example : let c : Cfg := { nbits := 8, es := 3, sub := true }
+    normalOperand c 0xb4 = true ∧ normalOperand c 0x30 = true ∧ addInRangeAll c 0xb4 (negate c 0x30) = true ∧ lt c 0xb4 0x30 = true ∧
+    addInRangeAll c 0x35 (negate c 0x3c) = true ∧ lt c 0x35 0x3c = true ∧
+    addInRangeAll c 0x3c (negate c 0x3c) = true ∧ lt c 0x3c 0x3c = false := by
   decide +kernel
